@@ -1,5 +1,6 @@
 From Coq Require Import List Ascii String ZArith Bool Arith Lia.
 From Model Require Import Bytes Message Bufio Pool.
+From Model.proofs Require C11.
 Import ListNotations.
 Local Open Scope nat_scope.
 From Coq Require Import Permutation.
@@ -342,3 +343,122 @@ Proof. intros asz buf n Hl Hn. reflexivity. Qed.
 Print Assumptions pool_exclusive.
 Print Assumptions udp_exclusive.
 Print Assumptions udp_history.
+
+
+(* ================================================================== C10: the statements *)
+(* the result for a datagram is a function of the datagram alone: whatever the buffer held
+   before (any [stale] contents), the parse step on the buffer the datagram was received into
+   yields what the specification parser yields on the datagram's bytes by themselves *)
+Theorem C10_isolated : forall stale d,
+  (2 * Z.of_nat (List.length stale) <= make_limit)%Z ->
+  udp_parse (fst (recv stale d)) (snd (recv stale d)) = parse_bytes (firstn (List.length stale) d).
+Proof.
+  intros stale d Hlim. rewrite <- recv_prefix.
+  apply C11.udp_parse_abs. rewrite recv_prefix, firstn_length. lia.
+Qed.
+Corollary C10_isolated_fits : forall stale d, List.length d <= List.length stale ->
+  (2 * Z.of_nat (List.length stale) <= make_limit)%Z ->
+  udp_parse (fst (recv stale d)) (snd (recv stale d)) = parse_bytes d.
+Proof.
+  intros stale d Hfit Hlim. rewrite (C10_isolated stale d Hlim). rewrite firstn_all2 by lia. reflexivity.
+Qed.
+Corollary C10_isolated_any_two : forall stale1 stale2 d,
+  List.length stale1 = List.length stale2 -> (2 * Z.of_nat (List.length stale1) <= make_limit)%Z ->
+  udp_parse (fst (recv stale1 d)) (snd (recv stale1 d)) = udp_parse (fst (recv stale2 d)) (snd (recv stale2 d)).
+Proof.
+  intros s1 s2 d Hl Hlim. rewrite (C10_isolated s1 d Hlim). rewrite Hl in Hlim.
+  rewrite (C10_isolated s2 d Hlim), Hl. reflexivity.
+Qed.
+
+Lemma udp_parse_isolated asz : (2 * Z.of_nat asz <= make_limit)%Z ->
+  forall buf n, List.length buf = asz -> n <= asz -> udp_parse buf n = parse_bytes (firstn n buf).
+Proof.
+  intros Hlim buf n Hl Hn. apply C11.udp_parse_abs. rewrite firstn_length. lia.
+Qed.
+
+(* lifted to histories: any sequence of datagrams, any interleaving of the receive loop and the
+   parse loop (hence any recycling order of the buffers), any initial pool contents: the results
+   are those of the datagrams decoded one by one, each by itself, in arrival order *)
+Theorem C10_history : forall evs u, udp_wf u ->
+  (2 * Z.of_nat (p_asize (u_pool u)) <= make_limit)%Z ->
+  snd (udp_run udp_parse u evs) = udp_spec (p_asize (u_pool u)) (queued_dgrams u) evs.
+Proof.
+  intros evs u Hwf Hlim.
+  exact (udp_history udp_parse (p_asize (u_pool u)) (udp_parse_isolated _ Hlim) evs u Hwf eq_refl).
+Qed.
+Corollary C10_history_fresh : forall maxcap asize evs, (2 * Z.of_nat asize <= make_limit)%Z ->
+  snd (udp_run udp_parse (new_udp maxcap asize) evs) = udp_spec asize [] evs.
+Proof.
+  intros maxcap asize evs Hlim.
+  pose proof (C10_history evs (new_udp maxcap asize) (new_udp_wf maxcap asize)) as H.
+  unfold new_udp in *. cbn in *. exact (H Hlim).
+Qed.
+
+(* a datagram is decoded only if an empty line closes its header section and the body it
+   declares lies entirely within its own bytes; anything else is discarded (Err, never Panic) *)
+Theorem C10_short_discarded : forall d,
+  match parse_bytes d with
+  | Ok m => exists hdr rest, d = hdr ++ m_body m ++ rest /\
+              (exists h0, hdr = h0 ++ [LF; LF] \/ hdr = h0 ++ [LF; CR; LF]) /\
+              get_header_int (s2b "Content-Length") m = Ok (Z.of_nat (List.length (m_body m)))
+  | Err => True
+  | Panic => False
+  end.
+Proof.
+  intros d. unfold parse_bytes, res_fst.
+  destruct (parse_message d) as [[m rest]| |] eqn:E.
+  - destruct (C11.parse_message_accepts_complete d m rest E) as (hdr & H1 & H2 & H3).
+    exists hdr, rest. repeat split; assumption.
+  - exact I.
+  - exact (C11.parse_message_no_panic d E).
+Qed.
+(* in particular: more body declared than bytes present => discarded *)
+Corollary C10_overdeclared_discarded : forall d m,
+  parse_bytes d = Ok m ->
+  exists cl, get_header_int (s2b "Content-Length") m = Ok cl /\ (cl <= Z.of_nat (List.length d))%Z.
+Proof.
+  intros d m H. pose proof (C10_short_discarded d) as Hs. rewrite H in Hs.
+  destruct Hs as (hdr & rest & Hd & _ & Hcl). eexists. split; [exact Hcl|].
+  rewrite Hd, !app_length. lia.
+Qed.
+
+(* no buffer is at the same time in the pool and held, or held twice *)
+Theorem C10_pool_exclusive : forall maxcap asize evs s',
+  prun (new_pool maxcap asize, []) evs = Some s' -> NoDup (pool_ids s').
+Proof. exact pool_exclusive_init. Qed.
+Theorem C10_pool_exclusive_udp : forall maxcap asize evs,
+  NoDup (udp_ids (fst (udp_run udp_parse (new_udp maxcap asize) evs))).
+Proof. intros maxcap asize evs. apply udp_exclusive. apply new_udp_wf. Qed.
+
+(* the code as found: the reader wrapped the whole pool buffer.  A datagram that declares 40
+   body bytes and carries 4 is completed with what the previous datagram left in the buffer *)
+Definition d_first : bytes :=
+  s2b "MESSAGE sip:a@h SIP/2.0" ++ [CR; LF] ++ s2b "Content-Length: 40" ++ [CR; LF; CR; LF] ++
+  s2b "SECRET-BYTES-OF-THE-EARLIER-DATAGRAM-#1!".
+Definition d_second : bytes :=
+  s2b "MESSAGE sip:b@h SIP/2.0" ++ [CR; LF] ++ s2b "Content-Length: 40" ++ [CR; LF; CR; LF] ++ s2b "ABCD".
+Definition stale_buf : bytes := fst (recv (repeat Ascii.zero 128) d_first).
+Theorem C10_legacy_refuted :
+  parse_bytes d_second = Err /\
+  udp_parse (fst (recv stale_buf d_second)) (snd (recv stale_buf d_second)) = Err /\
+  (exists m, udp_parse_legacy (fst (recv stale_buf d_second)) (snd (recv stale_buf d_second)) = Ok m /\
+             m_body m = s2b "ABCDET-BYTES-OF-THE-EARLIER-DATAGRAM-#1!") /\
+  (exists m, udp_parse_wholebuf (fst (recv stale_buf d_second)) (snd (recv stale_buf d_second)) = Ok m /\
+             m_body m = s2b "ABCDET-BYTES-OF-THE-EARLIER-DATAGRAM-#1!").
+Proof.
+  split; [vm_compute; reflexivity|]. split; [vm_compute; reflexivity|].
+  split; eexists; split; vm_compute; reflexivity.
+Qed.
+
+(* non-vacuity: a history that recycles a dirty buffer *)
+Example C10_history_ex :
+  snd (udp_run udp_parse (new_udp 8 128) [URecv d_first; UParse; URecv (s2b "x"); UParse; URecv d_second; UParse])
+  = [parse_bytes d_first; Err; Err] /\ is_ok (parse_bytes d_first) = true.
+Proof. split; vm_compute; reflexivity. Qed.
+
+Print Assumptions C10_isolated.
+Print Assumptions C10_history.
+Print Assumptions C10_short_discarded.
+Print Assumptions C10_pool_exclusive.
+Print Assumptions C10_pool_exclusive_udp.
+Print Assumptions C10_legacy_refuted.
